@@ -154,3 +154,33 @@ def run_jobs(jobs, seed=0, procs=None):
     with ctx.Pool(procs, maxtasksperchild=8) as pool:
         return list(pool.imap_unordered(run_job, [(j, seed) for j in jobs],
                                         chunksize=1))
+
+
+def simple_result(name):
+    """result record for checks that do not go through Engine.explore."""
+    return dict(name=name, paths=0, completed=0, cut=0, aborted=0,
+                notmodelled=0, decisions=0, forks=0, q_sat=0, q_unsat=0,
+                q_unknown=0, solver_s=0.0, obligations=0, discharged=0,
+                failed=0, inconclusive=0, budget_exhausted=0, nontrivial=0,
+                notes=[], samples=[], labels={}, violations=[], spurious=[],
+                validated=0, validation_problems=[], wall_s=0.0,
+                extra_samples=[])
+
+
+def record(res, label, outcome, solver_s=0.0):
+    """outcome: 'unsat' (discharged) | 'sat' | 'unknown'."""
+    res['obligations'] += 1
+    res['completed'] += 1
+    res['paths'] += 1
+    res['nontrivial'] += 1
+    lab = res['labels'].setdefault(label, [0, 0])
+    lab[0] += 1
+    res['solver_s'] += solver_s
+    res['q_' + outcome] += 1
+    if outcome == 'unsat':
+        res['discharged'] += 1
+        lab[1] += 1
+    elif outcome == 'unknown':
+        res['inconclusive'] += 1
+        res['notes'].append('INCONCLUSIVE %s: solver answered unknown / '
+                            'timeout' % label)
